@@ -44,3 +44,7 @@ add('C11', 'exploration', 'property-based testing of forwarding histories; wire-
     'Histories of 1-3 generated bundles (any multiset of hop-by-hop and unknown blocks, CRC types, block numbering, creation time zero or past, clock advance) are forwarded by a real agent and the transmitted octets are compared with the received octets by an independent decoder (primary octet-identical, payload, previous node, hop counts +1, age, other blocks, numbering, CRCs).',
     'Virtual clock; bundles fit the MTU; process-wide scapy state is reset between cases so that a case is a pure function of its own history.',
     'DESIGN.md section 3 C11')
+add('C08', 'fault_enumeration', 'exhaustive single-bit fault injection + property-based burst injection on received bundles; independent CRC recomputation on every emitted bundle',
+    'Every single-bit flip inside every CRC-protected block of enumerated seed bundles, and generated bursts up to the CRC width, are fed to the real receive callback and must leave no trace (no delivery, no octets to the CL, seen-set unchanged, pristine copy still processed); every bundle the agent emits in originate/forward/fragment/report scenarios has its CRCs recomputed by a bit-serial reference over the wire octets.',
+    'Bit-serial CRC reference; exceptions out of the receive callback count as dropped; exhaustive only for the enumerated seed bundles (24 quick / 400 thorough).',
+    'DESIGN.md section 3 C08')
